@@ -227,6 +227,18 @@ Example C01_example_spaces :
   ~ wf_term ex_world (TXAgents 0).
 Proof. vm_compute. repeat split; try congruence; try (intros H; apply H; reflexivity). Qed.
 
+(* the cell space of the model is data (cells in creation order, connection lists): the theorems above hold for every
+   cell space - orthogonal grids, HexGrid, Network, VoronoiGrid; this is the 5-centroid Voronoi space the driver builds *)
+Example C01_example_voronoi :
+  let w := {| w_agents := [ {| a_id := 1; a_cls := 0; a_key := 2 |} ]; w_next := 2; w_sgen := MODEL_GEN;
+              w_cells := [(0, []); (1, [1]); (2, []); (3, []); (4, [])];
+              w_conn := [(0, [4; 1; 2]); (1, [4; 0; 3]); (2, [4; 3; 0]); (3, [4; 1; 2]); (4, [0; 1; 3; 2])];
+              w_lw := 1; w_lh := 1; w_lgrid := []; w_cutoff := 7; w_xspaces := [] |} in
+  seeded_space w /\ wf_cterm (CSelect (CNbhd 4 true) true None) /\
+  ceval w (CSelect (CNbhd 4 true) true None) = Ok {| members := [0; 3; 2; 4]; gen := MODEL_GEN |} /\
+  run_ops true w [RandomAgent (CNbhd 0 false) 0; SelectRandomEmpty 3; TryRandomEmpty [1; 4]] = [[0; 1]; [0; 4]; [0; 4]].
+Proof. vm_compute. repeat split; congruence. Qed.
+
 Example C01_example_choices :
   let ops := [ShuffleDo (TByType 0) [1; 0]; RandomCell (CNbhd 0 false) 1; RandomAgent CAll 2; SelectRandomEmpty 1;
               TryRandomEmpty [0; 2; 3]; MoveOneOf 2 [(1, 1); (0, 0); (1, 0)] true [2; 0; 1] 1;
